@@ -11,7 +11,9 @@ BOUNDS = ("operand positions {8-bit immediate, 16-bit immediate, direct/extended
           "offset, EQU, FDB, FCB} x L op R with op in + - * / and L, R in {decimal and $hex literals, EQU constants "
           "(decimal, hex, %binary, 'char spellings) defined before or after use, labels before or after use}; BOTH "
           "leaf values symbolic over their whole class range, label addresses via a symbolic 16-bit origin; single "
-          "symbols in every position as the degenerate case")
+          "symbols in every position as the degenerate case; ONE EQU constant (symbolic 20..120) and ONE label shared by 13 "
+          "statements of one program (8- and 16-bit immediates, n-LABEL / LABEL+n / LABEL-n, FCB/FDB lists, index offset, "
+          "extended) in forward, reversed and seeded orders, EQU before and after use")
 OUTSIDE = "expressions with more than two terms (not in the grammar); PCR targets with constants are C03's"
 ASSUMPTIONS = ["int(a/b) model M5: exact for the operand ranges (IEEE lemma for constant divisors; exhaustive native "
                "validation for symbolic divisors is part of the thorough tier)"]
@@ -140,6 +142,52 @@ def make(pos, lk, rk, op):
     return Ob(oid, body, timeout=120, tags={"pos": pos, "op": op}, text="%s %s   [%s %s %s]" % (m, fmt, lk, op, rk))
 
 
+SHARED = [("LDB #K", lambda v, tb: [0xC6, v]), ("LDX #K", lambda v, tb: [0x8E, 0, v]), ("LDA #K+1", lambda v, tb: [0x86, v + 1]),
+          ("LDY #K+1", lambda v, tb: [0x10, 0x8E, 0, v + 1]), ("LDD #$FFFF-TB", lambda v, tb: [0xCC] + _w(0xFFFF - tb)),
+          ("LDX #TB+2", lambda v, tb: [0x8E] + _w(tb + 2)), ("LDU #TB-1", lambda v, tb: [0xCE] + _w(tb - 1)),
+          ("FDB TB+2,K", lambda v, tb: _w(tb + 2) + _w(v)), ("FCB K,K+1", lambda v, tb: [v, v + 1]),
+          ("LDA K,X", lambda v, tb: [0xA6, 0x88, v]), ("STA TB", lambda v, tb: [0xB7] + _w(tb)),
+          ("CMPA #K", lambda v, tb: [0x81, v]), ("CMPX #K", lambda v, tb: [0x8C, 0, v])]
+
+
+def _w(v):
+    return [(v >> 8) & 255, v & 255]
+
+
+def make_shared(sid, order, equ_after):
+    """ONE EQU constant and ONE label used by many statements of one program, in 8- and 16-bit positions and in several
+    expressions (n-LABEL, LABEL+n, LABEL-n, lists): every statement encodes the arithmetic value, whatever the other
+    statements of the program did with the same symbol"""
+    def body(ctx):
+        t, v = ctx.lit("D3", "k")
+        ctx.assume(20 <= v)
+        ctx.assume(v <= 120)
+        stm = [SHARED[i] for i in order]
+        lines = [" ORG $2000"] + ([] if equ_after else ["K EQU %s" % t]) + [" " + x for x, _f in stm] + ["TB FDB 0"] + (["K EQU %s" % t] if equ_after else [])
+        first = 1 if equ_after else 2
+        out = assemble(lines)
+        info = {"lines": lines, "outcome": out.describe()}
+        fault = None
+        if not out.ok:
+            fault = "rejected"
+        else:
+            tb = 0x2000
+            for x, f in stm:
+                tb += len(f(0, 0))
+            if symbols(out.program).get("TB") != tb or symbols(out.program).get("K") != v:
+                fault = "symbol table"
+            for i, (x, f) in enumerate(stm):
+                got = stmt_bytes(out.program.statements[first + i])
+                want = f(v, tb)
+                if fault is None and (len(got) != len(want) or got != want):
+                    fault = "%s emitted %r" % (x, list(got))
+        info["fault"] = fault
+        if fault is None:
+            return True, info
+        return ctx.known(PID, {"pos": "shared", "poskind": "shared", "op": None, "lk": "equ", "rk": ""}, {"fault": fault, "kind": out.kind}), info
+    return Ob("C04:shared:" + sid, body, timeout=300, tags={"pos": "shared", "op": None}, text="one EQU constant and one label shared by %d statements (%s)" % (len(order), sid))
+
+
 def encodes(kind, m, b, r):
     """the bytes encode value r at the width the position dictates (r reduced mod 65536 when outside 0..65535)"""
     if kind in ("fdb",):
@@ -190,6 +238,14 @@ def obligations(tier, seed):
             o = make(pos, lk, None, None)
             o.oid = "C04:%s:single:%s" % (pos, lk)
             obs.append(o)
+    n = len(SHARED)
+    obs.append(make_shared("forward", list(range(n)), False))
+    obs.append(make_shared("reversed", list(range(n))[::-1], False))
+    obs.append(make_shared("equ-after", list(range(n)), True))
+    for i in range(3 if not full else 12):
+        order = list(range(n))
+        rnd.shuffle(order)
+        obs.append(make_shared("perm%d" % i, order, bool(i % 2)))
     return obs
 
 
